@@ -149,6 +149,7 @@ func c17() {
 		kind string
 		k    int
 		k2   int
+		v    int
 	}
 	var hists []hist
 	total := fx.lenA
@@ -217,6 +218,23 @@ func c17() {
 		hists = append(hists, hist{kind: "overlapping-run", k: r0.Intn(total + 1)})
 	}
 
+	// two runs on the same binary interleaved at chosen points of their disassemblers' output: run A pauses after k bytes,
+	// run B is started and pauses after k2 bytes, then they are released (or one fails / is killed) in a chosen order
+	pairs := [][2]int{{20000, 100}, {20000, 8192}, {total / 2, total/2 - 30000}, {8192, 20000}, {100, 100}, {4096, 0}, {total - 100, 5000}, {65536, 40000}}
+	for i := 0; i < run.N(4, 60); i++ {
+		a := r0.Intn(total + 1)
+		pairs = append(pairs, [2]int{a, r0.Intn(a + 1)}, [2]int{r0.Intn(a + 1), a})
+	}
+	nv := 0
+	for _, pr := range pairs {
+		for v := 0; v < 12; v++ {
+			if run.Thorough() || (nv%12 == v) || v == 2 || v == 5 {
+				hists = append(hists, hist{kind: "interleaved-runs", k: pr[0], k2: pr[1], v: v})
+			}
+		}
+		nv++
+	}
+
 	var mu sync.Mutex
 	outcomes := map[string]int64{}
 	cacheLens := map[int64]bool{}
@@ -282,6 +300,67 @@ func c17() {
 				run.Violation("fewer-syscalls:overlapping-run", fmt.Sprintf("a run that overlaps another run which has written %d bytes of the dump so far exits 0 with a profile of %d syscalls; a cold cache gives %d", h.k, len(profileNames(overlap.Stdout)), len(profileNames(coldA))),
 					map[string]any{"check": "C17", "history": h.kind, "k": h.k, "steps": steps})
 				return
+			}
+		case "interleaved-runs":
+			// v: how B ends (0 exits 0, 1 tool exits 1, 2 killed) x who is released first (A, B) x how A ends (exits 0, tool exits 1)
+			endB, bFirst, endA := h.v%3, (h.v/3)%2 == 1, (h.v/6)%2
+			a, err := th.StartPaused(vlib.ToolRun{Argv: argv(target), Listing: fx.listA, K: h.k, Exit: endA, Env: henv})
+			if err != nil {
+				run.Inconclusive("cannot run profiler: " + err.Error())
+				return
+			}
+			if !a.WaitReady(30 * time.Second) {
+				a.Kill()
+				a.Wait(5 * time.Second)
+				run.SoftInconclusive("interleaved history: run A never paused")
+				return
+			}
+			bexit := 0
+			if endB == 1 {
+				bexit = 1
+			}
+			b, err := th.StartPaused(vlib.ToolRun{Argv: argv(target), Listing: fx.listA, K: h.k2, Exit: bexit, Env: henv})
+			if err != nil {
+				a.Kill()
+				a.Wait(5 * time.Second)
+				run.Inconclusive("cannot run profiler: " + err.Error())
+				return
+			}
+			bPaused := b.WaitReady(30 * time.Second)
+			finish := func(name string, p *vlib.PausedRun, kill bool, exit int) bool {
+				if kill {
+					p.Kill()
+				} else {
+					p.Release()
+				}
+				res := p.Wait(60 * time.Second)
+				steps = append(steps, fmt.Sprintf("run %s ends (killed=%v, disassembler exit status %d) -> exit=%d signaled=%v cache=%v", name, kill, exit, res.ExitCode, res.Signaled, th.CacheFiles()))
+				if res.TimedOut {
+					run.SoftInconclusive("interleaved history: run " + name + " timed out")
+					return false
+				}
+				if !kill && exit == 0 && res.ExitCode == 0 && !res.Signaled && res.Stdout != coldA {
+					run.Violation("fewer-syscalls:interleaved-runs", fmt.Sprintf("run %s of two interleaved runs on one binary (A paused after %d bytes, B after %d, variant %d) exits 0 with a profile of %d syscalls; a cold cache gives %d", name, h.k, h.k2, h.v, len(profileNames(res.Stdout)), len(profileNames(coldA))),
+						map[string]any{"check": "C17", "history": h.kind, "k": h.k, "k2": h.k2, "v": h.v, "steps": steps})
+					return false
+				}
+				return true
+			}
+			steps = append(steps, fmt.Sprintf("run A: disassembler pauses after %d bytes; run B started on the same binary: disassembler pauses after %d bytes (paused=%v); cache=%v", h.k, h.k2, bPaused, th.CacheFiles()))
+			ok := true
+			if bFirst {
+				ok = finish("B", b, endB == 2, bexit)
+				ok = finish("A", a, false, endA) && ok
+			} else {
+				ok = finish("A", a, false, endA)
+				ok = finish("B", b, endB == 2, bexit) && ok
+			}
+			if !ok {
+				return
+			}
+			run.Count("interleaved_run_pairs", 1)
+			if endB == 2 {
+				run.Count("real_kills", 1)
 			}
 		case "kill-while-writing-long-name":
 			res := step(vlib.ToolRun{Argv: argv(target), FakeMode: "block", Listing: fx.listA, K: h.k, KillAfter: true, Timeout: 20 * time.Second}, fmt.Sprintf("run 1: binary name of %d characters, disassembler emits %d bytes and blocks, profiler SIGKILLed", h.k2, h.k))
@@ -379,12 +458,12 @@ func c17() {
 				outcome = "fewer-syscalls"
 			}
 			run.Violation(outcome+":"+h.kind, fmt.Sprintf("history '%s' (k=%d): the normal run after it exits 0 with a profile of %d syscalls; a cold cache gives %d", h.kind, h.k, len(got), len(want)),
-				map[string]any{"check": "C17", "history": h.kind, "k": h.k, "k2": h.k2, "steps": steps, "profile_syscalls": len(got), "cold_cache_syscalls": len(want), "stderr_tail": tail(res.Stderr, 600)})
+				map[string]any{"check": "C17", "history": h.kind, "k": h.k, "k2": h.k2, "v": h.v, "steps": steps, "profile_syscalls": len(got), "cold_cache_syscalls": len(want), "stderr_tail": tail(res.Stderr, 600)})
 		}
 		mu.Lock()
 		outcomes[h.kind+" -> "+outcome]++
 		byKind[h.kind]++
-		distinct[fmt.Sprint(h.kind, h.k/512, h.k2/4096)] = true
+		distinct[fmt.Sprint(h.kind, h.k/512, h.k2/4096, h.v)] = true
 		mu.Unlock()
 		if i == 3 || h.kind == "binary-replaced" {
 			run.Sample(3, map[string]any{"history": h.kind, "k": h.k, "steps": steps, "outcome": outcome})
@@ -416,5 +495,5 @@ func c17() {
 		}
 	}
 	run.Finish(run.Counter("histories"), int64(len(distinct)),
-		"two- and three-run histories of the built seccomp-profiler in private mount namespaces (own ~/.seccomp-profiler): run 1 interrupted by SIGKILL after the scripted disassembler emitted k bytes (k swept over 0,1,63..65, every 4096-byte flush boundary +-1, end, PRNG), disassembler absent / exiting 1 or killed after k bytes / after everything, SIGKILL on entering the n-th write/rename/unlink of a thread (strace signal injection, n swept), RLIMIT_FSIZE of K bytes and RLIMIT_NOFILE of 3..16, ENOSPC on every write from the K-th on, EIO while hashing, binary replaced, a second run overlapping a first one that is still writing; then a normal run whose profile must equal the cold-cache profile or fail; distinct = (kind, k/512) cells")
+		"two- and three-run histories of the built seccomp-profiler in private mount namespaces (own ~/.seccomp-profiler): run 1 interrupted by SIGKILL after the scripted disassembler emitted k bytes (k swept over 0,1,63..65, every 4096-byte flush boundary +-1, end, PRNG), disassembler absent / exiting 1 or killed after k bytes / after everything, SIGKILL on entering the n-th write/rename/unlink of a thread (strace signal injection, n swept), RLIMIT_FSIZE of K bytes and RLIMIT_NOFILE of 3..16, ENOSPC on every write from the K-th on, EIO while hashing, binary replaced, a second run overlapping a first one that is still writing, two runs on one binary interleaved at chosen output offsets with either released first and one failing or killed; then a normal run whose profile must equal the cold-cache profile or fail; distinct = (kind, k/512) cells")
 }
